@@ -1,8 +1,55 @@
-ASSUMPTIONS = ['moodycamel::ConcurrentQueue replaced by its contract model (shim/moodycamel)']
-OUTSIDE = ''
-INSTANCES = [
-    {'name': 'pool_fq', 'src': 'pool_fq.cpp', 'engine': 'cbmc', 'shims': ['moodycamel'],
-     'repo_sources': ['dispenso/thread_pool.cpp', 'dispenso/thread_pool_wake.cpp', 'dispenso/detail/per_thread_info.cpp'],
-     'rt_defs': {'VF_HAVE_THREAD_MODEL': 1}, 'models': ['aligned_alloc'], 'allow_externals': ['_ZN8dispenso6detail27registerFineSchedulerQuantaEv'],
-     'unwind': 3, 'unwindset': {'_ZN8dispenso21ConcurrentObjectArenaINS_14MpmcRingBufferINS_12OnceFunctionELm16ELb1EEEmLm64EE7grow_byEm.4': 17, '_ZN8dispenso21ConcurrentObjectArenaINS_14MpmcRingBufferINS_12OnceFunctionELm4ELb1EEEmLm64EE7grow_byEm.4': 5}, 'timeout': 900, 'cflags': ['-DDISPENSO_TUNE_STEAL_RING_SHARING=1'], 'bounds': 'probe'},
+TECHNIQUE = ('bounded symbolic execution of LLVM IR lowered to C: CBMC/SAT (cadical), one real API call from a '
+             'symbolic pre-state of the real ThreadPool object (virtual workers, sequential engine)')
+ASSUMPTIONS = [
+    'moodycamel::ConcurrentQueue replaced by its contract model (shim/moodycamel, bounded FIFO)',
+    'detail::alignedMalloc/alignedFree replaced by their contract (typed fresh block)',
+    'std::thread start is modelled (pool threads never run by themselves); the pool pre-state a worker could '
+    'have produced is written into the private fields instead',
+    'pool has >= 1 thread (the property excludes the documented inline fallback of a 0-thread pool)',
 ]
+OUTSIDE = ('API-call granularity: the call runs atomically from the symbolic pre-state, concurrent changes of the pool '
+           'state *during* the call (other producers, workers going to sleep, a concurrent resize that drops '
+           'numThreads_ to 0) are not interleaved; pool sizes > 2; wake-group / steal-ring sharing factors other than '
+           'the configured ones; allocation failure of the central queue')
+
+_SRC = ['dispenso/thread_pool.cpp', 'dispenso/thread_pool_wake.cpp', 'dispenso/detail/per_thread_info.cpp',
+        'dispenso/task_set.cpp']
+_R16 = '_ZN8dispenso21ConcurrentObjectArenaINS_14MpmcRingBufferINS_12OnceFunctionELm16ELb1EEEmLm64EE7grow_byEm.4'
+_R4 = '_ZN8dispenso21ConcurrentObjectArenaINS_14MpmcRingBufferINS_12OnceFunctionELm4ELb1EEEmLm64EE7grow_byEm.4'
+
+_APIS = {
+    0: ('pool_sched', 'ThreadPool::schedule(f, ForceQueuingTag)'),
+    1: ('pool_placed', 'ThreadPool::schedulePlaced(f, ForceQueuingTag)'),
+    2: ('pool_token', 'ThreadPool::schedule / schedulePlaced(ProducerToken&, f, ForceQueuingTag)'),
+    3: ('ts_sched', 'TaskSet::schedule(f, ForceQueuingTag)'),
+    4: ('ts_bulk', 'TaskSet::scheduleBulk(n<=3, gen, ForceQueuingTag)'),
+    5: ('cts_sched', 'ConcurrentTaskSet::schedule(f, ForceQueuingTag), cost kHeavy/kLightweight symbolic'),
+    6: ('cts_bulk', 'ConcurrentTaskSet::scheduleBulk(n<=3, gen, ForceQueuingTag)'),
+}
+
+
+def _inst(api, n, tiers):
+    name, what = _APIS[api]
+    return {
+        'name': '%s_n%d' % (name, n), 'src': 'fq.cpp', 'engine': 'cbmc', 'shims': ['moodycamel'],
+        'repo_sources': _SRC, 'rt_defs': {'VF_HAVE_THREAD_MODEL': 1}, 'models': ['aligned_alloc'],
+        'allow_externals': ['_ZN8dispenso6detail27registerFineSchedulerQuantaEv'],
+        'defs': {'VF_N': n, 'VF_API': api, 'VF_MQ_CAP': 4},
+        'cflags': ['-DDISPENSO_TUNE_STEAL_RING_SHARING=1'],
+        'unwind': 5, 'unwindset': {_R16: 17, _R4: 5}, 'timeout': 1500, 'tiers': tiers, 'must_reach': 'all',
+        'bounds': ('one call of %s on a real ThreadPool(%d) (real constructor; steal-ring capacity 4 via '
+                   'DISPENSO_TUNE_STEAL_RING_SHARING=1); symbolic pre-state: workRemaining_ in [-16,2^40], '
+                   'poolLoadFactor_ in [0,2^40], numNotWorking_, signaling-wake on/off, central-queue hint, '
+                   'steal-ring hint mask, per worker awake/asleep/asleep+claimed (real enterSleep/tryClaimSleeper), '
+                   'steal-ring fill 0..4 (4 = full), one older task in the central queue (model capacity 4), caller = external '
+                   'thread / worker of this pool (any ring index) / worker of another pool, inline depth 0..40, '
+                   'parallel_for recursion level 0..3; task sets: load multiplier 1..8, outstanding count 0..2^20, '
+                   'canceled flag symbolic; bulk count 0..3' % (what, n)),
+    }
+
+
+INSTANCES = []
+for _api in range(7):
+    INSTANCES.append(_inst(_api, 1, ['quick', 'thorough']))
+for _api in range(7):
+    INSTANCES.append(_inst(_api, 2, ['quick', 'thorough'] if _api in (1, 6) else ['thorough']))
